@@ -53,7 +53,7 @@ def answer(db, req):
 def one_case(rng, tmp):
     from lazy_dataset.database import DictDatabase, JsonDatabase
     pool = ['train', 'dev', 'test', 'extra', 'eval', 'A']
-    nd = rng.choice([1, 1, 2, 2, 3])
+    nd = rng.choice([1, 2, 2, 3, 3])
     descs = [gen_desc(rng, pool, i == 0) for i in range(nd)]
     if rng.random() < 0.6 and nd > 1:
         # make names disjoint most of the time
@@ -72,6 +72,17 @@ def one_case(rng, tmp):
                 used |= set(d['alias'])
                 if not d['alias']:
                     del d['alias']
+    if nd == 3 and rng.random() < 0.5:
+        # a name introduced by the SECOND description (as alias or dataset) reused by the THIRD
+        if 'alias' not in descs[1] and rng.random() < 0.7:
+            descs[1]['alias'] = {'Z': list(descs[1]['datasets'])[:1]}
+        src_names = list(descs[1].get('alias', {})) * 2 + list(descs[1]['datasets'])
+        if src_names:
+            nm = rng.choice(src_names)
+            if rng.random() < 0.5:
+                descs[2].setdefault('alias', {})[nm] = list(descs[2]['datasets'])[:1]
+            else:
+                descs[2]['datasets'][nm] = {'e9': {'v': 0, 'w': [0]}}
     pristine = copy.deepcopy(descs)
     all_names = sorted({n for d in descs for n in list(d['datasets']) + list(d.get('alias', {}))}) + ['missing']
     reqs = [rng.choice(all_names) for _ in range(rng.randint(1, 4))]
@@ -97,6 +108,16 @@ def one_case(rng, tmp):
                 seen |= set(names)
             if not clash:
                 fails.append(('valid_descriptions_rejected', {'descriptions': pristine, 'error': impl['merge']}))
+        if db is not None:
+            seen_names, dup = set(), None
+            for d in pristine:
+                names = list(d['datasets']) + list(d.get('alias', {}))
+                for nm in names:
+                    if nm in seen_names:
+                        dup = nm
+                seen_names |= set(names)
+            if dup is not None:
+                fails.append(('duplicate_name_accepted', {'name': dup, 'descriptions': pristine}))
         if db is not None:
             impl['names'] = list(db.dataset_names)
             impl['answers'] = [answer(db, r) for r in reqs]
@@ -159,7 +180,7 @@ def one_case(rng, tmp):
 
 def run(rep):
     rng = random.Random(rep.seed * 37 + 19)
-    n = 150 if rep.tier == 'quick' else 4000
+    n = 400 if rep.tier == 'quick' else 4000
     tmp = tempfile.mkdtemp(prefix='verif_c19_')
     try:
         cases = [one_case(rng, tmp) for _ in range(n)]
